@@ -154,7 +154,7 @@ def rule_translation(ctx):
         if t[:1] == ("call",) and len(t) == 3 and len(t[2]) == 1 and isinstance(t[2][0], tuple) and t[2][0][:1] == ("ctor",):
             from ..flow import short as _short
             for dp in finders:
-                if _short(dp) == t[1]:
+                if _short(dp) == t[1] or (len(finders) == 1 and t[1].split("::")[-1] == dp.split("::")[-1]):      # a free function, or the method of a private trait
                     return expand(_comp.decide_literals(sym.Eval(fx, inline_depth=0).function(fx.bodies[dp][0], [t[2][0]])), depth + 1)
         return t
     PUB = ("call", "IndexSet::contains", (("call", "UserGuide::public_predicates", (UG,)), ("call", "Atom::predicate", (("param", "$atom"),))))
@@ -632,7 +632,7 @@ def rule_parser_defaults(ctx):
     av = ev.function(a)
     dirs = {dict(x[2]).get("direction") for x in sym.subterms(av) if isinstance(x, tuple) and x[:2] == ("ctor", "AnnotatedFormula")}
     flat_ = {y for t_ in dirs for y in sym.subterms(t_) if isinstance(y, tuple)} | set(dirs)
-    has_default = any(y[:2] == ("call", "Default::default") or y == ("ctor", "Direction::Universal", ()) for y in flat_ if isinstance(y, tuple))
+    has_default = any(y[:2] in (("call", "Default::default"), ("call", "Option::unwrap_or_default")) or y == ("ctor", "Direction::Universal", ()) for y in flat_ if isinstance(y, tuple))
     others = sorted(y[1] for y in flat_ if isinstance(y, tuple) and y[:1] == ("ctor",) and y[1].startswith("Direction::") and y[1] != "Direction::Universal")
     ctx.add("TAB-DEFAULT", "direction:omitted", len(dirs) == 1 and has_default and not others, ctx.site(a),
             "a formula annotated without a direction gets the default direction (no other direction is written into it by the parser): %s" % others, construct=sorted(map(repr, dirs))[:2])
